@@ -49,10 +49,15 @@ impl Policy {
     }
 }
 
+thread_local! {
+    /// the piece the harness, as manager, assigned last (every ReqData it builds is sent as a reply)
+    static LAST_ASSIGNED: std::cell::Cell<Option<usize>> = std::cell::Cell::new(None);
+}
 fn reqdata(t: &str, plens: &[usize], hashes: &[[u8; 20]]) -> ReqData {
     let mut it = t.split(':');
     it.next();
     let i: usize = it.next().unwrap().parse().unwrap();
+    LAST_ASSIGNED.with(|c| c.set(Some(i)));
     let l: usize = it.next().map(|x| x.parse().unwrap()).unwrap_or(*plens.get(i).unwrap_or(&0));
     ReqData { piece_index: i, piece_length: l, piece_hash: *hashes.get(i).unwrap_or(&[0u8; 20]) }
 }
@@ -158,6 +163,7 @@ async fn run_case(line: &str, scratch: &std::path::Path) -> String {
     let _ = std::fs::remove_dir_all(scratch);
     std::fs::create_dir_all(scratch).unwrap();
     std::env::set_current_dir(scratch).unwrap();
+    LAST_ASSIGNED.with(|c| c.set(None));
 
     let (peer_tx, mut peer_rx) = mpsc::channel::<PeerCmd>(64);
     let (broad_tx, _keep) = broadcast::channel::<BroadCmd>(32);
@@ -260,16 +266,12 @@ async fn run_case(line: &str, scratch: &std::path::Path) -> String {
                 match cmd {
                     PeerCmd::PieceDone { resp_ch, .. } => {
                         // "treated as owned only after such verified data has been stored": at the instant the report
-                        // reaches the manager side a piece file that was not there before must exist, complete and verified
-                        let stored = std::fs::read_dir(".")
-                            .map(|rd| {
-                                rd.flatten().any(|e| {
-                                    let name = e.file_name().to_string_lossy().to_string();
-                                    let data = std::fs::read(&name).unwrap_or_default();
-                                    seen_files.get(&name) != Some(&data) && hashes.iter().any(|h| hexname(h) == name && sha1(&data) == *h)
-                                })
-                            })
-                            .unwrap_or(false);
+                        // reaches the manager side the file of the piece assigned last must exist, complete and verified
+                        // (presence, not novelty: an end-game duplicate completes a piece whose file is already there)
+                        let stored = match LAST_ASSIGNED.with(|c| c.get()).and_then(|i| hashes.get(i)) {
+                            Some(h) => std::fs::read(hexname(h)).map(|d| sha1(&d) == *h).unwrap_or(false),
+                            None => false,
+                        };
                         let _ = resp_ch.send(piece_reply(&pol.get("done"), &plens, &hashes));
                         cmds.push(if stored { "DONE".into() } else { "DONE-EARLY".into() });
                     }
